@@ -153,7 +153,38 @@ fn position_sets(kmax: usize) -> Vec<Vec<(u32, u32)>> {
     out
 }
 
+/// Shared-string tables past the 16-bit index boundary: BrtCellIsst carries a 32-bit index.
+fn large_sst(rep: &Report) {
+    [65_535usize, 65_536, 65_537, 66_000].par_iter().for_each(|&n| {
+        crate::engine::crumb::set_job(&format!("C03 shared-string table of {n} strings"));
+        let idx: Vec<u32> = [0u32, 1, 255, 256, 65_534, 65_535, 65_536, 65_537, n as u32 - 1].into_iter().filter(|i| (*i as usize) < n).collect();
+        let items: Vec<BItem> = idx.iter().enumerate().map(|(k, i)| BItem::Cell { row: k as u32, col: 0, style: 0, val: BVal::Isst(*i) }).collect();
+        let book = BBook { sheets: vec![BSheet::new("S1", items)], sst: (0..n).map(|i| format!("s{i}")).collect(), ..Default::default() };
+        let bytes = write(&book, Method::Deflated);
+        rep.eval(1);
+        let replay = || Replay { json: json!({"large_sst": n, "indices": idx}), files: vec![("xlsb".into(), bytes.clone())] };
+        let res = guarded(|| -> Result<calamine::Range<Data>, String> {
+            let mut wb: Xlsb<_> = Xlsb::new(Cursor::new(bytes.clone())).map_err(|e| format!("open: {e:?}"))?;
+            wb.worksheet_range("S1").map_err(|e| format!("worksheet_range: {e:?}"))
+        });
+        match &res {
+            Err(p) => rep.fail("large-sst/panic", &format!("reader panicked: {p}"), replay),
+            Ok(Err(e)) => rep.fail("large-sst/error", &format!("well-formed workbook rejected: {e}"), replay),
+            Ok(Ok(r)) => for (k, i) in idx.iter().enumerate() {
+                let got = r.get_value((k as u32, 0)).cloned().unwrap_or(Data::Empty);
+                if got != Data::String(format!("s{i}")) { rep.fail("large-sst/index", &format!("table of {n} strings: BrtCellIsst {i} at ({k},0) read {got:?}"), replay); break; }
+            },
+        }
+        rep.case(hash_of(&bytes), true, hash_of(&format!("{:?}", res.as_ref().map(|r| r.as_ref().map(|x| x.get_size()).map_err(|e| e.clone())).map_err(|e| e.clone()))));
+        crate::engine::crumb::clear();
+    });
+}
+
 pub fn check(rep: &Report) {
+    rayon::join(|| large_sst(rep), || check_sheets(rep));
+}
+
+fn check_sheets(rep: &Report) {
     let t = crate::thorough(&rep.tier);
     rep.rule("sheets with <= k cells in a 2x3 window at anchors {(0,0),(1,126),(1048574,16381)} over ~70 cell kinds = 13 numbers x every exact RK encoding + BrtCellReal, BrtCellIsst/St/Bool/Error (8 codes), BrtFmlaNum/String/Bool/Error; at every gap an ignorable record (BrtCellMeta, BrtValueMeta, FRT block with an unknown future record, unknown ids 0x7F/0x80/0x3FFF) with payload lengths {0,1,127,128,16383,16384} and, separately, records of 2^21-1, 2^21, 2^21+1 and 2^22 bytes (4-byte length prefix) at every gap of a two-cell sheet; blank cells; with/without the optional blocks before BrtBeginSheetData; all choice vectors with <= d deviations; non-trivial = non-default choice; distinct by file bytes");
     rep.assume("RK int with the /100 flag may read as Int or Float (numeric equality required); worksheet_range and worksheet_range_ref must agree");
@@ -203,6 +234,7 @@ pub fn replay(path: &str) -> i32 {
     let Ok(s) = std::fs::read_to_string(path) else { return 2 };
     let v: serde_json::Value = serde_json::from_str(&s).unwrap();
     if v.get("big_record_len").is_some() { println!("recorded: {}", v["what"]); return 0; }
+    if v.get("large_sst").is_some() { println!("table of {} strings, cells reference {} (see the file in the replay directory)", v["large_sst"], v["indices"]); return 0; }
     let choices: Vec<u32> = v["choices"].as_array().unwrap().iter().map(|x| x.as_u64().unwrap() as u32).collect();
     let anchor = (v["anchor"][0].as_u64().unwrap() as u32, v["anchor"][1].as_u64().unwrap() as u32);
     let positions: Vec<(u32, u32)> = v["positions"].as_array().unwrap().iter().map(|p| (p[0].as_u64().unwrap() as u32, p[1].as_u64().unwrap() as u32)).collect();
